@@ -24,6 +24,8 @@ THEOREMS = ['C08_volume_str_counts', 'C08_write_wf', 'C08_prune_preserves_wf',
             'C08_print_parse_roundtrip', 'C08_written_text_wf',
             'C08_convert_tail_text_wf_R', 'C08_table_refs_linked',
             'C08_convert_wf_linked', 'C08_convert_wf_surfaces_linked',
+            'C08_table_keys_linked', 'C08_matching_numbers_linked',
+            'C08_insert_helpers_ok', 'C08_convert_wf_full_linked',
             'C08_numbers_given', 'C08_numbers_finite', 'C08_words_okb_sound',
             'C08_remove_empty_volumes_ok', 'C08_geomcomp_partition',
             'C08_bc_defined',
@@ -384,7 +386,7 @@ def _run(res, tier, seed, proofs_ok, cov):
             meta.append((deck_text, args, conv.exc, verdict, made[1]))
 
     # ---- 2 + 3. generated decks: sweep and tie on the same runs ----
-    n_decks = 170 if tier == 'quick' else 1000
+    n_decks = 170 if tier == 'quick' else 1500
     for i in range(n_decks):
         dk, tags = gen.gen_deck(rng)
         deck_text = gen.render(dk)
@@ -422,7 +424,7 @@ def _run(res, tier, seed, proofs_ok, cov):
                             'file_bytes': len(conv.text)})
     bad, errs = run_multi('c08_tie', ['check_file', 'check_verdict',
                                       'outside_guard', 'stage0_ok', 'check_reader',
-                           'text_ok'],
+                           'text_ok', 'check_helpers'],
                           cases)
     n_in = len(bad['outside_guard']) if not errs else 0   # indices where outside_guard = false
     res.extra['guard'] = {'cases': len(cases),
@@ -474,6 +476,20 @@ def _run(res, tier, seed, proofs_ok, cov):
                       {'input': {'deck': deck_text, 'args': args},
                        'theorem_or_correspondence': 'tie:text'},
                       found_input=False)
+    res.obligation(f'tie:helpers ({len(cases)} snapshots: the surface dictionary '
+                   'is Model.insert_helpers of its first entries (PLANEX 1 / '
+                   'PLANEX -1 under max+2, max+3 = the union ids))',
+                   not bad['check_helpers'] and not errs,
+                   f'{len(bad["check_helpers"])} snapshots differ')
+    for idx in bad['check_helpers'][:5]:
+        deck_text, args, exc, verdict, _open = meta[idx]
+        res.violation('correspondence',
+                      'the helper planes of the snapshot are not what '
+                      'Model.insert_helpers inserts [options '
+                      f'{" ".join(args) or "default"}]',
+                      {'input': {'deck': deck_text, 'args': args},
+                       'theorem_or_correspondence': 'tie:helpers'},
+                      found_input=False)
     res.obligation(f'tie:reader ({len(cases)} runs: the Coq reader parse_t4 on the '
                    'bytes of the real file accepts exactly the files the '
                    'validator accepts, print_t4 of what it read gives the same '
@@ -522,7 +538,7 @@ def tables_stream(res, tier, rng):
     '''Malformed stream: synthetic tables (half of them outside every
     hypothesis) through the real tail + writeT4Geometry and through the model.'''
     import c08_tables as tab
-    n_tables = 150 if tier == 'quick' else 1000
+    n_tables = 150 if tier == 'quick' else 1500
     cases, meta = [], []
     for i in range(n_tables):
         tables = tab.gen_tables(rng, malformed=i % 2 == 1)
